@@ -1,0 +1,40 @@
+// Copyright 2020-2025 Buf Technologies, Inc.
+//
+// Licensed under the Apache License, Version 2.0 (the "License");
+// you may not use this file except in compliance with the License.
+// You may obtain a copy of the License at
+//
+//      http://www.apache.org/licenses/LICENSE-2.0
+//
+// Unless required by applicable law or agreed to in writing, software
+// distributed under the License is distributed on an "AS IS" BASIS,
+// WITHOUT WARRANTIES OR CONDITIONS OF ANY KIND, either express or implied.
+// See the License for the specific language governing permissions and
+// limitations under the License.
+
+//go:build verif
+
+package shake256
+
+// Contracts for the gocv verifier (ca-r4b). Comment-only.
+//
+// C08: a shake256 digest value is exactly 64 bytes; any other length is an error and no digest.
+//@ func newDigest(value) (r, err)
+//@   property C08
+//@   ensures length-checked: (err == nil) <==> len(value) == 64
+//@   ensures value-kept: err == nil ==> r != nil && r.value == value
+//@   ensures error-yields-nil: err != nil ==> r == nil
+//
+//@ func NewDigest(value) (r, err)
+//@   property C08
+//@   ensures length-checked: (err == nil) <==> len(value) == 64
+//@   ensures value-kept: err == nil ==> r != nil && r.Value() == value
+//@   ensures error-yields-nil: err != nil ==> r == nil
+//
+//@ pure func (d *digest) Value() (r)
+//@   property C08
+//@   ensures r == d.value
+// Interface contract of Digest.Value: *digest is the only implementation (isDigest is unexported), and its Value is
+// verified just above.
+//@ trusted pure func (Digest) Value() (r)
+//@   ensures r == cast(*digest, this).value
